@@ -344,13 +344,17 @@ func (f *Font) GlyphBBoxes() []funit.Rect16 {
 }
 
 // GlyphWidth returns the advance width of the glyph with the given glyph ID,
-// in font design units.
+// in font design units.  Glyph IDs which are not present in the font (these
+// can be produced by a "cmap" or "GSUB" table of a damaged font) have width 0.
 func (f *Font) GlyphWidth(gid glyph.ID) float64 {
 	switch f := f.Outlines.(type) {
 	case *cff.Outlines:
+		if int(gid) >= len(f.Glyphs) {
+			return 0
+		}
 		return f.Glyphs[gid].Width
 	case *glyf.Outlines:
-		if f.Widths == nil {
+		if int(gid) >= len(f.Widths) {
 			return 0
 		}
 		return float64(f.Widths[gid])
